@@ -5,6 +5,7 @@ import CalicoVerif.Proofs.C01Arc
 import CalicoVerif.Proofs.C01Prof
 import CalicoVerif.Proofs.C01Valid
 import CalicoVerif.Proofs.C01Acc
+import CalicoVerif.Proofs.C01ProfAct
 /-!
 C01 — Felix's computed dataplane state depends only on current datastore state.
 
@@ -95,7 +96,9 @@ theorem accumulate_eq_declared_partial (H : IdFn) (s : Bool) (h : List HStep)
 /-! ### what is proved about the upstream side, for every history -/
 
 /-- PROVED (set half of the protocol, all histories): every `OnIPSetAdded` the graph makes is for an
-IP set that is not declared, every `OnIPSetRemoved` for one that is. -/
+IP set that is not declared, every `OnIPSetRemoved` for one that is; and no call other than IP-set
+add/remove, member add/remove, policy/profile active/inactive and endpoint updates is ever made (so no
+route / VTEP / pass-through object is declared by the modelled nodes). -/
 theorem ipset_add_remove_valid_partial (H : IdFn) (s : Bool) (h : List HStep) :
     setValidAll {} (run H (Graph.new s) h).1.calls :=
   (rsInv_run h (rsInv_new H s)).setValid
@@ -138,11 +141,6 @@ structure RemainingContract (H : IdFn) (s : Bool) (h : List HStep) : Prop where
   ipsets : (decl (run H (Graph.new s) (h ++ [.flush])).1).ipsets = (fresh H s (lastState h)).toDP.ipsets
   /-- (c) C03 `resolver_eq_spec` (open in Props/C03): per-endpoint tier lists -/
   endpoints : (decl (run H (Graph.new s) (h ++ [.flush])).1).ep = (fresh H s (lastState h)).toDP.ep
-  /-- no route / VTEP / pass-through call is ever made by the modelled nodes (true by inspection of the
-  five `emit` sites; not yet mechanised) -/
-  others : (decl (run H (Graph.new s) (h ++ [.flush])).1).vtep = (fun _ => none) ∧
-    (decl (run H (Graph.new s) (h ++ [.flush])).1).route = (fun _ => none) ∧
-    (decl (run H (Graph.new s) (h ++ [.flush])).1).gen = (fun _ _ => none)
 
 /-- END-TO-END (partial: modelled nodes only, and under the named `RemainingContract`): for every
 history `h` of datastore updates (duplicates, reverts, spurious deletes, invalid values = deletes) with
@@ -153,7 +151,7 @@ theorem calc_history_independent_partial (H : IdFn) (s : Bool) (h : List HStep)
     (hc : RemainingContract H s h) :
     accumulate (run H (Graph.new s) (h ++ [.flush])).2 = (fresh H s (lastState h)).toDP := by
   have hvalid : validAll {} (run H (Graph.new s) (h ++ [.flush])).1.calls :=
-    (validAll_iff _ _).mpr ⟨ipset_add_remove_valid_partial H s (h ++ [.flush]), hc.memberCalls⟩
+    validAll_of _ _ (ipset_add_remove_valid_partial H s (h ++ [.flush])) hc.memberCalls
   rw [accumulate_eq_declared_partial H s h hvalid]
   have hd := declared_eq_rulescanner_partial H s (h ++ [.flush])
   simp only [] at hd
@@ -162,7 +160,8 @@ theorem calc_history_independent_partial (H : IdFn) (s : Bool) (h : List HStep)
     funext k; rw [hd.1 k, hc.activePols k]; rfl
   have hprof : (decl (run H (Graph.new s) (h ++ [.flush])).1).prof = (fresh H s (lastState h)).toDP.prof := by
     funext p; rw [hd.2.1 p, hc.activeProfs p]; rfl
-  exact DP.ext' hc.ipsets hpol hprof hc.endpoints hc.others.1 hc.others.2.1 hc.others.2.2
+  have ho := others_untouched _ ({} : DP) (ipset_add_remove_valid_partial H s (h ++ [.flush]))
+  exact DP.ext' hc.ipsets hpol hprof hc.endpoints ho.1 ho.2.1 ho.2.2
 
 /-- RULE SCANNER node theorem (all histories of OnPolicyActive/Inactive, OnProfileActive/Inactive):
 `key` references exactly the IP sets of its latest rules; the OnIPSetActive / OnIPSetInactive events are a
@@ -208,6 +207,25 @@ theorem arc_profile_table_eq_spec_partial (H : IdFn) (s : Bool) (h : List HStep)
   simp only []
   rw [hrun]
   exact C05.view_eq_spec _ p
+
+/-- PROFILES, graph level (all histories): the RuleScanner's `active` table holds profile `p` exactly when
+a stored local endpoint lists it (`C05.referenced`), with the profile's current rules or — if it has
+none — the deny stand-in.  (`profActInv_run`: the table follows the profile path's output log;
+`arc_profile_table_eq_spec_partial`: that log's view is the C05 specification.)  What is left of
+`RemainingContract.activeProfs` is only the identification of the C05 tables with the datastore
+(`endpoint_table_after` / `profile_table_after` of Props/C05 along the history). -/
+theorem active_profiles_eq_c05_spec_partial (H : IdFn) (s : Bool) (h : List HStep) (p : String) :
+    let g := (run H (Graph.new s) h).1
+    (C05.referenced g.arcProf p → mget g.active (.prof p) = some (outRules (C05.outOf g.arcProf p))) ∧
+    (¬ C05.referenced g.arcProf p → mget g.active (.prof p) = none) := by
+  have hi := profActInv_run H h (profActInv_new s)
+  have hv := arc_profile_table_eq_spec_partial H s h p
+  simp only [] at hv ⊢
+  have hp : mget (run H (Graph.new s) h).1.active (.prof p) =
+      (C05.alGet p (C05.view (run H (Graph.new s) h).1.arcProf.out)).map outRules := congrFun hi p
+  refine ⟨fun hr => ?_, fun hr => ?_⟩
+  · rw [hp, hv.1 hr]; rfl
+  · rw [hp, hv.2 hr]; rfl
 
 /-! ### non-vacuity: a concrete history (policy selecting a local endpoint through an inherited
 profile label, an IP set with members, reverts and a spurious delete, flushes in between) for which
